@@ -120,6 +120,17 @@ CLAIMED = {
    design_ref="DESIGN.md section 6, C13",
    note="Trusted: Coq kernel, extraction, OCaml driver, Rust harness (debug + release), Python substring oracle. GHW alias arithmetic is exercised through the corpus file only.",
    technique="correspondence: Coq model extracted to OCaml vs real slicer (exhaustive small scope, debug+release) + substring oracle"),
+ "C09": dict(
+   category="translation_validation",
+   text="The Gallina model of the VCD header path (read_command incl. the `$end` matcher, find_tokens, read_vcd_header, the callback of "
+        "read_hierarchy_inner with attributes 02/03/04, IdTracker::need_id_map and the restart with an id map, parse_name, "
+        "extract_suffix_index with i64/i32 arithmetic, VarIndex, keyword tables, bit_vec_of_len) produces HierarchyBuilder operations that "
+        "are run through the hierarchy model of C08; extracted to OCaml it is compared with viewers::read_header on generated headers "
+        "(both option values) and on keyword / index-form sweeps; oracle: hierarchy computed from the abstract declaration tree by an "
+        "independent rose-tree specification, meta data as written, header length.",
+   design_ref="DESIGN.md section 6, C09",
+   note="Trusted: Coq kernel, extraction, OCaml driver, Rust harness, Python declaration printer + oracle. Blank space inside commands is limited to spaces; names are ASCII.",
+   technique="correspondence: Coq model extracted to OCaml vs real header parser + oracle from abstract declaration tree"),
 }
 
 NOT_YET = {}
